@@ -32,6 +32,8 @@ structure Cfg where
   faults : List (Nat × Nat)
   /-- operations answered (n < len, nil) — entries `k<s>j` of `f=` -/
   shorts : List (Nat × Nat) := []
+  /-- `ap=1`: the destination is an O_APPEND file -/
+  ap : Bool := false
   hasF : Bool
   cont : Bool
   files : List Drv.W.WFile
@@ -74,7 +76,9 @@ def parse (args : List String) (needKind : Bool) : Option Cfg := do
     | some p => p.toNat?
     | none => some pre.length
   if pos > pre.length then none
-  pure { kind := kind, bs := bs, stream := kv.lookup "m" == some "s",
+  let ap := kv.lookup "ap" == some "1"
+  if ap && kind == Kind.at then none
+  pure { ap := ap, kind := kind, bs := bs, stream := kv.lookup "m" == some "s",
          o := Drv.W.mkOpts (Drv.W.kvGet kv "a") (Drv.W.kvGet kv "h") (Drv.W.kvGet kv "l"),
          pvOpt := Drv.W.kvGet kv "pv", v := Drv.W.kvGet kv "v" == 1, pre := pre, pos := pos, faults := (fs.filter (!·.1)).map (·.2), shorts := (fs.filter (·.1)).map (·.2), hasF := hasF,
          cont := kv.lookup "c" == some "1", files := files }
@@ -213,6 +217,8 @@ def execWr (args : List String) : String :=
   | none => "bad-op"
   | some c =>
     let o := run c c.faults
+    -- O_APPEND: the same operations land elsewhere (Dest.runAppend)
+    let o := if c.ap then { o with d := { o.d with content := (({ content := c.pre, pos := c.pos } : Dest).runAppend o.d.log.reverse).content } } else o
     if o.refused then "refused" else showRun o
 
 def fnv (bs : Bytes) : UInt64 := bs.foldl (fun h b => (h ^^^ b.toUInt64) * 0x100000001b3) 0xcbf29ce484222325
@@ -263,7 +269,7 @@ def execWrX (args : List String) : String :=
   match parse args true with
   | none => "bad-op"
   | some c =>
-    if c.hasF then "bad-op" else
+    if c.hasF || c.ap then "bad-op" else
     let base := run c []
     if base.refused then "refused" else
     let pts := faultPoints base.d.log.reverse
@@ -343,7 +349,7 @@ def c11Run (c : Cfg) (results hits : List String) (ci : String) (out : Option By
   else if hits.any (fun h => match h.toNat? with
       | some i => results[i]? != some "err"
       | none => true) then some "fail:fault-swallowed"
-  else if ci.startsWith "ok" && !c.cont && zeroHeaders c && (specChain c c.stream).isSome && !(c.kind == .at && !c.pre.isEmpty) && c.pos == c.pre.length && c.shorts.isEmpty then
+  else if ci.startsWith "ok" && !c.cont && zeroHeaders c && (specChain c c.stream).isSome && !(c.kind == .at && !c.pre.isEmpty) && c.pos == c.pre.length && c.shorts.isEmpty && !c.ap then
     match out with
     | none => some "fail:answer"
     | some bs => if (boundaries c).contains bs then none else some "fail:incomplete-output-accepted"
@@ -366,7 +372,7 @@ def propWr (args : List String) (impl : String) : String :=
         | none =>
           -- C09: a fault-free, accepted run leaves exactly pre ++ encodeChain (write-at destinations: the encoder's own, i.e. empty before)
           if c.hasF then "ok"
-          else if (c.kind == .at && !c.pre.isEmpty) || c.pos != c.pre.length then "n/a"
+          else if (c.kind == .at && !c.pre.isEmpty) || c.pos != c.pre.length || c.ap then "n/a"
           else match specChain c c.stream with
             | none => "n/a"
             | some fits =>
